@@ -42,6 +42,31 @@ called back through ``get_unitary``/``get_grad``/``get_unitary_and_grad``
 (the "python" path).  ``VtGivensGate``/``VtCPhaseGate`` below are
 user-defined gates without ``_expr`` that are certain to take that path.
 
+Clauses -> signatures
+  cost_value / resid_cost_value |kind|path   get_cost == reference (1e-9)
+  cost_zero|kind, cost_positive|kind         zero iff equal up to phase
+  calc_cost / resid_calc_cost |kind          generator.calc_cost at c.params
+  resid_value|kind|path, resid_shape|kind    pinned residual vector
+  grad_fd|path|GateClass                     get_grad, get_cost_and_grad and
+       every residual-Jacobian column == central differences of the
+       reference; one signature per (path, class of the gate owning the bad
+       parameter) whichever function exposes it
+  *_differs                                  two entry points of one object
+  inst_same_object, inst_structure, inst_param_count, inst_num_candidates,
+  inst_kept_not_a_candidate, inst_kept_min_cost, inst_auto_selection
+  inst_exc|method|ExcType|frame[|culprit]    unexpected exception / panic
+  <clause>|ExcType|frame                     unexpected exception elsewhere
+
+Findings on the unchanged tree and their exclusion modes (active only when
+``ctx.is_known(sig)``; the replaced draws are counted in ``excluded`` and one
+dedicated probe per shard keeps reporting the finding):
+  grad_fd|native|CRYGate            top-level CRYGate -> CRXGate in cases
+                                    whose gradient clauses run
+  inst_exc|qfactor|PanicException|qfactor.py:instantiate|{U3Gate,U8Gate,
+  PauliZGate}                       that gate -> VariableUnitaryGate in the
+                                    qfactor arm
+  inst_exc|qfactor|nonunitary-target  qfactor arm draws unitary targets only
+
 Cases (JSON):
   {"k":"cost","circ":CSPEC,"t":TSPEC,"excl":n}
   {"k":"inst","circ":CSPEC,"t":TSPEC,"meth":"qfactor|ceres|lbfgs|scipy",
@@ -885,7 +910,12 @@ def _blame_qfactor(circ) -> str:
             if not _is_panic(e):
                 raise
             names.append(type(g).__name__)
-    return '+'.join(sorted(set(names))) or 'combination'
+    return '+'.join(sorted(set(names)))
+
+
+def _slug(msg: str) -> str:
+    head = msg.split(':')[0].split('.')[0]
+    return ''.join(ch if ch.isalnum() else '-' for ch in head)[:48]
 
 
 def check_inst(case) -> Outcome:
@@ -920,12 +950,13 @@ def check_inst(case) -> Outcome:
             # outside what any caller does (implicit precondition)
             out.label('auto:minimization-on-nondifferentiable:skipped')
             return out
-        meth = want_cls.get_method_name() + '-auto'
     else:
         want_cls = QFactor if meth == 'qfactor' else Minimization
         if not want_cls.is_capable(circ):
             raise core.HarnessError('generator produced an incapable circuit')
-    out.label('inst', 'kind:' + tgt.kind, 'inst-method:' + meth,
+    # name used in labels and signatures: what actually runs
+    mname = want_cls.get_method_name() if via == 'auto' else meth
+    out.label('inst', 'kind:' + tgt.kind, 'inst-method:' + mname,
               'via:' + via, f'starts:{k}')
 
     def run():
@@ -962,17 +993,20 @@ def check_inst(case) -> Outcome:
             out.fail(SIG_QF_TARGET, f'{tgt.kind} target: {e!r}'[:600])
         else:
             out.fail(
-                f'inst_exc|{meth}|{type(e).__name__}|'
+                f'inst_exc|{mname}|{type(e).__name__}|'
                 f'{core.innermost_repo_frame(e)}', repr(e)[:600],
             )
         return out
     except BaseException as e:
         if not _is_panic(e):
             raise
-        culprit = _blame_qfactor(circ) if want_cls is QFactor else '-'
+        # a gate class that fails on its own names the root cause; otherwise
+        # the head of the panic message does (e.g. a NaN produced by one
+        # gate's native optimize and tripped over by the next gate)
+        culprit = _blame_qfactor(circ) if want_cls is QFactor else ''
+        culprit = culprit or 'msg:' + _slug(str(e))
         out.fail(
-            f'inst_exc|{want_cls.get_method_name() if via == "auto" else meth}'
-            f'|PanicException|'
+            f'inst_exc|{mname}|PanicException|'
             f'{core.innermost_repo_frame(e)}|{culprit}', repr(e)[:600],
         )
         return out
@@ -1076,9 +1110,14 @@ def _user_op(draw, radixes):
         loc = [draw(st.integers(0, n - 1))]
         g = {'g': 'VtGivens', 'a': [radixes[loc[0]]]}
     w = draw(st.sampled_from(
-        ['none', 'none', 'none', 'dagger', 'power', 'frozen', 'tagged'],
+        ['none', 'none', 'none', 'dagger', 'power', 'frozen', 'tagged',
+         'controlled'],
     ))
-    if w == 'dagger':
+    if w == 'controlled' and g['g'] == 'VtGivens' and n >= 2:
+        ctrl = draw(st.sampled_from([q for q in range(n) if q != loc[0]]))
+        g = {'g': 'Controlled', 'inner': g, 'nc': 1, 'cr': [radixes[ctrl]]}
+        loc = [ctrl, loc[0]]
+    elif w == 'dagger':
         g = {'g': 'Dagger', 'inner': g}
     elif w == 'power':
         g = {'g': 'Power', 'inner': g, 'power': draw(st.integers(-2, 3))}
@@ -1381,10 +1420,10 @@ def run_shard(ctx: core.Ctx) -> core.ShardResult:
     res.extra['exclusion_qfactor_gates'] = ','.join(sorted(drop))
     core.run_hypothesis(
         ctx, res, inst_cases(drop=drop, qf_unitary_only=qf_uni), check,
-        ctx.n(40, 800), sub=1, max_shrink_sigs=2,
+        ctx.n(30, 600), sub=1, max_shrink_sigs=2,
     )
     core.run_hypothesis(
-        ctx, res, cost_cases(no_cry=no_cry), check, ctx.n(300, 6000), sub=0,
+        ctx, res, cost_cases(no_cry=no_cry), check, ctx.n(200, 4000), sub=0,
         max_shrink_sigs=2,
     )
     return res
